@@ -195,6 +195,12 @@ class NoSuchObject(Type[None]):
         else:
             super().__init__(value=value)
 
+    def encode_raw(self) -> bytes:
+        """
+        These markers carry no content (see :rfc:`3416#section-3`)
+        """
+        return b""
+
 
 class NoSuchInstance(Type[None]):
     """
@@ -220,6 +226,12 @@ class NoSuchInstance(Type[None]):
         else:
             super().__init__(value=value)
 
+    def encode_raw(self) -> bytes:
+        """
+        These markers carry no content (see :rfc:`3416#section-3`)
+        """
+        return b""
+
 
 class EndOfMibView(Type[None]):
     """
@@ -244,6 +256,12 @@ class EndOfMibView(Type[None]):
             super().__init__(value=None)
         else:
             super().__init__(value=value)
+
+    def encode_raw(self) -> bytes:
+        """
+        These markers carry no content (see :rfc:`3416#section-3`)
+        """
+        return b""
 
 
 class GetRequest(PDU):
